@@ -991,6 +991,21 @@ impl Interpreter {
         self.env = self.global_env.cheap_clone();
         self.env_guards.clear();
         self.call_stack.clear();
+
+        // Whatever the previous program was still waiting for (an unanswered order, an
+        // unsettled promise, imports that were never supplied) is abandoned with it;
+        // otherwise the new program's completion would be reported as Suspended forever.
+        self.active_vm = None;
+        self.active_module_path = None;
+        self.active_saved_env = None;
+        self.active_module_env = None;
+        self.suspended_for_order = None;
+        self.wait_graph = WaitGraph::new();
+        self.pending_orders.clear();
+        self.order_responses.clear();
+        self.cancelled_orders.clear();
+        self.pending_program = None;
+        self.exports.clear();
     }
 
     /// Create a module namespace object from current exports and store in loaded_modules
